@@ -17,7 +17,7 @@ class C19(Plugin):
     impl_jobs = 4
     design_ref = "DESIGN.md 4/C19, 3.8"
     rule = ("case = (duration d, delay before the first poll p0, inner completion time ti or never, inner result, handover: first poll by a throw-away waker and then driven by another task) through the "
-            "public TimeoutLayer around a scripted inner service under tokio's paused clock; observed: result, resolution time, "
+            "public TimeoutLayer around a scripted inner service under tokio's paused clock (and, for a grid of durations incl. zero, through Client::builder().with_timeout over a pooled duplex transport: result and instant only); observed: result, resolution time, "
             "instant at which the inner future was dropped; non-trivial = ti within 2 ms of d or p0 > 0; distinct = distinct tuples")
     trusted = ["modelled (not verified): Timeout::call, TimeoutFuture::poll", "oracle O4: tokio paused clock at 1 ms granularity"]
     assumptions = ["the executor polls the future when its waker fires (tokio current-thread runtime)",
@@ -40,6 +40,12 @@ class C19(Plugin):
                 for r in (["O", 7], ["E", 3]):
                     cases.append([d, p0, ti, r, 0])
                 cases.append([d, p0, ti, ["O", 1], 1])
+        # the same deadline through the public client Builder (Client::builder().with_timeout(d), pooled duplex transport,
+        # in-process server answering after ti): ties excluded (the real request needs several polls at one instant)
+        for d in (0, 1, 5, 20):
+            for ti in (None, 0, 3, 7, 30):
+                if ti is None or ti != d and not (d == 0 and ti == 0):
+                    cases.append([d, 0, ti, ["O", 7], 0, "B"])
         n = 500 if tier == "quick" else 20000
         for _ in range(n):
             d = rng.randint(0, 50)
@@ -49,15 +55,17 @@ class C19(Plugin):
 
     def impl_line(self, c):
         d, p0, ti, r = c[:4]
-        return f"{d} {p0} {'-' if ti is None else ti} {r[0]}{r[1]} {c[4] if len(c) > 4 else 0}"
+        return f"{d} {p0} {'-' if ti is None else ti} {r[0]}{r[1]} {c[4] if len(c) > 4 else 0}" + (" B" if len(c) > 5 else "")
 
     def parse_obs(self, c, line):
         f = line.split()
         if f[0] == "PANIC":
             return {"res": "PANIC", "at": None, "dropped": None}
+        b = len(c) > 5      # Builder cases: the drop instant of the inner work is not observable; only result and instant are compared
         if f[0] == "INNER":
-            return {"res": f[1], "at": int(f[2]), "dropped": None if f[3] == "-" else int(f[3])}
-        return {"res": f[0], "at": None if f[1] == "-" else int(f[1]), "dropped": None if f[2] == "-" else int(f[2])}
+            return {"res": f[1], "at": int(f[2]), "dropped": int(f[2]) if b else (None if f[3] == "-" else int(f[3]))}
+        at = None if f[1] == "-" else int(f[1])
+        return {"res": f[0], "at": at, "dropped": at if b else (None if f[2] == "-" else int(f[2]))}
 
     def coq_case(self, c):
         d, p0, ti, r = c[:4]
@@ -84,6 +92,8 @@ class C19(Plugin):
     def shrinks(self, c):
         d, p0, ti, r = c[:4]
         h = c[4] if len(c) > 4 else 0
+        if len(c) > 5:
+            return
         if h:
             yield [d, p0, ti, r, 0]
         if p0:
